@@ -130,6 +130,8 @@ def run(ck):
         if kern == 'lpq':
             extra = dict(norm_p=1.5)
         exponent = [1.0, 1.2, 0.8][i % 3]
+        if i % 4 == 2 or (kern == 'l2_high_dim' and i % 10 == 1):
+            exponent = 2.0 if kern != 'lpq' else 1.5          # the Gaussian end of the range (Lpq: q <= p = 1.5)
         # odd fits keep the LAST iterate (learned, non-identity feature matrix guaranteed); even fits return the best one
         params = xr.default_rfm_params(kernel=kern, iters=1 + (i % 2), diag=diag, bandwidth=3.0, exponent=exponent,
                                        bandwidth_mode=bwmode, reg=1e-2, return_best=(i % 2 == 0), **extra)
